@@ -254,6 +254,11 @@ def _run(ctx: Ctx) -> Result:
         scriptpath('key with a torsion component (P + order-8 point), root computed for it by the formula', code, Kt, lkt)
         j = rng.randrange(32); lk2 = lock.bytes[:2 + j] + bytes([lock.bytes[2 + j] ^ (1 << rng.randrange(8))]) + lock.bytes[3 + j:]
         scriptpath('one bit of the root in the lock flipped', code, pk, lk2)
+        # the root with the SAME bit flipped in two bytes a multiple of 8 (or of 4, 16) apart - differences that cancel in a folded comparison
+        for gap in (8, 16, 24, 4):
+            j_ = rng.randrange(32 - gap); mk = 1 << rng.randrange(8)
+            r2 = bytearray(root); r2[j_] ^= mk; r2[j_ + gap] ^= mk
+            scriptpath(f'the root with bit {mk:02x} flipped in bytes {j_} and {j_ + gap}', code, pk, lock.bytes[:2] + bytes(r2) + lock.bytes[34:])
         # a root operand that is not 32 bytes (the true root with bytes appended, or a prefix of it) is not the root
         for what_, r_ in (('the true root with a byte appended', root + b'\x00'), ('the true root with five bytes appended', root + bytes(5)), ('the first 31 bytes of the true root', root[:31]),
                           ('the first 16 bytes of the true root', root[:16]), ('the first byte of the true root', root[:1])):
